@@ -812,3 +812,43 @@ Proof.
   - now rewrite Qs.
   - rewrite Qs. unfold q_siblings. exact E.
 Qed.
+
+(* ------------------------------------------------------------------ *)
+(* Tree-level accessors                                                 *)
+(* ------------------------------------------------------------------ *)
+Theorem tree_level_laws f : NoDup (ids f) ->
+  (forall m cx, locate_f m f = Some cx -> q_is_top cx = true ->
+     q_siblings cx true = tr_children f /\ q_first_sibling cx = tr_first_child f /\
+     q_last_sibling cx = tr_last_child f /\ In (c_self cx) (tr_children f)) /\
+  (forall x, In x (tr_children f) -> exists cx, locate_f (rid x) f = Some cx /\ c_self cx = x /\ q_is_top cx = true) /\
+  tr_count f = length (ids f) /\
+  tr_count f = tr_count_desc f false /\
+  (forall cs, map c_self cs = tr_children f ->
+     tr_count f = list_sum (map (fun c => S (q_count_desc c false)) cs) /\
+     tr_count_desc f true = list_sum (map (fun c => if q_is_leaf c then 1 else q_count_desc c true) cs)) /\
+  (tr_children f = [] <-> tr_count f = 0) /\
+  (f <> [] -> 1 <= tr_count_desc f true <= tr_count f).
+Proof.
+  intros H. refine (conj _ (conj _ (conj _ (conj _ (conj _ (conj _ _)))))).
+  - intros m cx Hx Ht. destruct (top_level_laws f m cx H Hx) as [[P1 P2] L].
+    assert (Hp : q_parent cx = None) by (unfold q_parent; unfold q_is_top in Ht; now destruct (c_anc cx)).
+    destruct (L Hp) as (_ & _ & Es & Ef & El & _). unfold tr_children, tr_first_child, tr_last_child.
+    refine (conj Es (conj Ef (conj El _))). now apply P2.
+  - intros x Hx. destruct (locate_f_self f x H (in_pre_f_top x f Hx)) as (cx & Hl & Es & Hok).
+    exists cx. split; [assumption|]. split; [assumption|].
+    destruct (top_level_laws f (rid x) cx H Hl) as [[P1 _] L]. rewrite <- Es in Hx. now destruct (L (P1 Hx)) as (Ht & _).
+  - unfold tr_count. now rewrite length_ids.
+  - unfold tr_count, tr_count_desc. now rewrite filter_true.
+  - intros cs Hcs. unfold tr_children in Hcs. unfold tr_count, tr_count_desc. split.
+    + rewrite count_all_sum, <- Hcs, map_map. f_equal. apply map_ext. intros d. unfold q_count_desc. now rewrite filter_true.
+    + change (fun t : rt => match rch t with [] => true | _ :: _ => false end) with is_leaf_t.
+      rewrite count_leaves_sum, <- Hcs, map_map. reflexivity.
+  - unfold tr_children, tr_count. split; [now intros ->|]. destruct f as [|x f']; [reflexivity|].
+    cbn [flat_map]. rewrite pre_unfold. discriminate.
+  - intros Hne. unfold tr_count, tr_count_desc. split; [|apply filter_len_le].
+    destruct f as [|y l]; [congruence|]. destruct (some_leaf y) as (d & Hd & Hl).
+    assert (Hin : In d (filter is_leaf_t (pre_f (y :: l)))).
+    { apply filter_In. split; [|assumption]. cbn [flat_map]. apply in_or_app. now left. }
+    change (fun t : rt => match rch t with [] => true | _ :: _ => false end) with is_leaf_t.
+    destruct (filter is_leaf_t (pre_f (y :: l))); [contradiction|]. cbn [length]. lia.
+Qed.
